@@ -163,7 +163,9 @@ pub fn cli_scenario(idx: u64, t: &mut Tape) -> CliScn {
             Some("zero-timeout-flag")
         }
         Some(4) => {
-            args.extend(["--connect-timeout".to_string(), "abc".to_string()]);
+            let flag = *t.pick(CFG, &["--connect-timeout", "--read-timeout", "--write-timeout"]);
+            let v = *t.pick(CFG, &["abc", "1m", "2h", "1.5", "1e3", "-1", "", " 1", "0x10", "400000000000000000m", "99999999999999999999", "18446744073709551616", "１"]);
+            args.push(format!("{flag}={v}"));
             Some("non-numeric-timeout-flag")
         }
         Some(5) => {
